@@ -12,7 +12,9 @@ from vf.model import expr as E
 
 # (names that begin like the extraction functions, or consist of hex letters with a lower-case h at the end, are plain labels)
 LABELS = {'lab_a': 5, 'lab_b': 300, 'k_one': 1, 'zz9': 65535, 'Mix_Ed': 12, 'v2': 2, '_floc': 77, 'BYTES': 9, 'LSBX': 4, 'BYTE1x': 6,
-          'each': 31, 'bah': 200}
+          'each': 31, 'bah': 200,
+          # digit groups joined by underscores are names, whatever they end in
+          'ADD_AH': 6, 'fee_dH': 15, 'b1_0': 21, 'dead_beefH': 13}
 SMALL = [0, 1, 2, 3, 7, 8, 10, 16, 100, 255, 256, 1000, 4095, 65535, 65536]
 SWEEP_LEAVES = [0, 1, 2, 3, 7, 10, 255, 256]
 FOREIGN = ['@', '~', '!', '?', '\\', '#', '`', '"']
